@@ -134,6 +134,21 @@ func rawList(c *ev.Case, o *rawOpts, depth int, classes *[]string) []byte {
 			l := r.IntN(40)
 			payload = fillerImage(c, l)
 			cls = fmt.Sprintf("%s/len%%4=%d", k, l%4)
+		case x < 9 && r.IntN(2) == 0: // a defined code under a vendor id the dictionary does not define it for: opaque
+			k := []refcodec.Kind{refcodec.Grouped, refcodec.Grouped, refcodec.Unsigned32, refcodec.Address, refcodec.Time}[r.IntN(5)]
+			if !pick(k) {
+				continue
+			}
+			foreign := &refdict.AVPDef{Code: def.Code, Type: "Unknown"}
+			if def.Vendor == 0 || r.IntN(2) == 0 {
+				foreign.Vendor = []uint32{def.Vendor + 1, 99999, 9}[r.IntN(3)]
+			}
+			if _, defined := o.ctx.Ix.FindAVP(o.app, foreign.Code, foreign.Vendor); defined {
+				continue
+			}
+			def = foreign
+			payload = fillerImage(c, r.IntN(40))
+			cls = fmt.Sprintf("foreign-vendor/%s/V=%v", k, foreign.Vendor != 0)
 		case x < 9: // unknown code
 			def = &refdict.AVPDef{Code: 0x00E00000 + uint32(r.IntN(1000)), Type: "Unknown"}
 			if r.IntN(2) == 0 {
